@@ -361,7 +361,7 @@ static Verdict run_history(const std::vector<Op>& h, World& w, bool fin, size_t*
 
 int main(int argc, char** argv)
 {
-    int depth = 3, nobj = 3; std::string out, replay; size_t max_states = 4000000;
+    int depth = 3, nobj = 3; std::string out, replay; size_t max_states = 4000000; double deadline = 0;
     for (int i = 1; i < argc; ++i) {
         std::string a = argv[i];
         if (a == "--depth") depth = atoi(argv[++i]);
@@ -369,6 +369,7 @@ int main(int argc, char** argv)
         else if (a == "--out") out = argv[++i];
         else if (a == "--replay") replay = argv[++i];
         else if (a == "--max-states") max_states = strtoull(argv[++i], 0, 10);
+        else if (a == "--deadline") deadline = atof(argv[++i]);
         else { fprintf(stderr, "unknown arg %s\n", a.c_str()); return 2; }
     }
     init_inputs();
@@ -404,6 +405,7 @@ int main(int argc, char** argv)
     for (int d = 0; d < depth && !capped; ++d) {
         next.clear();
         for (auto& h : frontier) {
+            if (deadline > 0 && std::chrono::duration<double>(std::chrono::steady_clock::now() - t0).count() > deadline) { capped = true; break; }
             World w;
             for (Op op : ALPHA) {
                 Verdict v0 = run_history(h, w, false);
